@@ -10,7 +10,7 @@ CHECKS['C08'] = {
     'assumptions': ['outcomes the property leaves open (O_TRUNC via read-only open, truncate via read-only handle, directory renamed '
                     'onto a file, O_SYNC) are adopted from the implementation'],
     'units': [
-        unit('machine', 'arvados', '^TestVerifC08Machine$', {'shards': 14, 'checks': 250, 'steps': 60}, {'shards': 16, 'checks': 15000, 'steps': 200, 'timeout': 3600}, crash_is_violation=True),
+        unit('machine', 'arvados', '^TestVerifC08Machine$', {'shards': 14, 'checks': 500, 'steps': 60}, {'shards': 16, 'checks': 15000, 'steps': 200, 'timeout': 3600}, crash_is_violation=True),
         unit('prod', 'arvados', '^TestVerifC08Production$', {'shards': 2, 'checks': 100, 'steps': 40}, {'shards': 2, 'checks': 2000, 'steps': 100, 'timeout': 2400}),
     ],
 }
